@@ -28,6 +28,10 @@ class Unclassified(Exception):
     pass
 
 
+class PathRaises(Exception):
+    """the statement always raises (e.g. a call of a method that does not exist): the path ends here"""
+
+
 ARITH_DUNDERS = {'__add__', '__sub__', '__mul__', '__matmul__', '__truediv__', '__pow__', '__neg__', '__radd__', '__rsub__',
                  '__rmul__', '__rmatmul__', '__rtruediv__', '__iadd__', '__isub__', '__imul__', '__itruediv__', '__abs__',
                  '__invert__', '__pos__', '__floordiv__', '__mod__'}
@@ -354,6 +358,7 @@ class FX:
         self.calls = set()      # callee variant names
         self.block = []
         self.local_syms = {}
+        self.notes = []
         self.me = f.params[0] if (f.cls is not None and f.kind in ('method', 'property') and f.params) else None
         self.cinfo = pkg.classes.get(f.cls) if f.cls else None
         # parameter variables first, in callee order
@@ -478,7 +483,11 @@ class FX:
                 if (tt or te) and not rest:
                     return False
                 continue
-            t = self.stmt(s)
+            try:
+                t = self.stmt(s)
+            except PathRaises as ex:
+                self.notes.append(str(ex))
+                t = True
             if t:
                 return True
         return False
@@ -943,6 +952,11 @@ class FX:
             if isinstance(fn.value, ast.Call) and isinstance(fn.value.func, ast.Name) and fn.value.func.id == 'super':
                 return self.call_super(fn.attr, e, args, kws, star_kw)
             # module.function
+            if isinstance(fn.value, ast.Name) and fn.value.id not in self.vars and fn.value.id in ('dict', 'str', 'list', 'tuple', 'float', 'int'):
+                al = frozenset()
+                for a in args:
+                    al |= self.ev(a).al
+                return Val(al, 'unk')
             if isinstance(fn.value, ast.Name) and fn.value.id not in self.vars:
                 k = self.sym(fn.value.id)
                 if k is not None and k[0] == 'mod':
@@ -956,7 +970,7 @@ class FX:
                 if k is not None and k[0] == 'class':
                     m = self.pkg.lookup_method(k[1], fn.attr)
                     if m is None:
-                        self.fail(e, 'unknown method of a class')
+                        raise PathRaises(f'AttributeError: {k[1]} has no method {fn.attr} (line {e.lineno})')
                     return self.call_pkg([m], args, kws, star_kw=star_kw)      # explicit first argument
                 if k is not None and k[0] == 'global':
                     self.emit('readglobal', 1)
